@@ -19,6 +19,7 @@ type Group struct {
 	Fuzz  FuzzConfig        `json:"fuzz"`
 	Tag   string            `json:"tag"`
 	Base  string            `json:"base"` // base URL path of the spec (normal form), for the client
+	Local bool              `json:"local"` // wire: obtain the client from API.LocalClient() instead of NewClient(origin + base, ...)
 }
 
 // Main is called by the generated main.go of a scratch module: driver <jobs.json> <events.ndjson>
